@@ -725,6 +725,10 @@ pub fn deviations() -> Vec<Dev> {
                     any = true;
                 }
             }
+            // nothing is spendable any more: a fee limit above 0 would be a second broken rule
+            if any {
+                c.tx.pol.max_fee = Some(0);
+            }
             any
         }),
         // ---- count limits / sizes
@@ -858,9 +862,16 @@ pub fn deviations() -> Vec<Dev> {
         dev!("create_slots_duplicate_key", true, |c| {
             match &mut c.tx.body {
                 Body::Create { slots, .. } if !slots.is_empty() => {
-                    // same key twice in a row (different values): not strictly increasing
-                    let (k, v) = *slots.last().unwrap();
-                    slots.push((k, v ^ 0x55));
+                    // same key twice in a row (different values): not strictly
+                    // increasing; the number of slots is kept when there are >= 2
+                    let n = slots.len();
+                    if n >= 2 {
+                        let (k, v) = slots[n - 2];
+                        slots[n - 1] = (k, v ^ 0x55);
+                    } else {
+                        let (k, v) = slots[0];
+                        slots.push((k, v ^ 0x55));
+                    }
                 }
                 _ => return false,
             }
